@@ -310,8 +310,46 @@ impl Property for C30 {
     }
 
     fn replay(&self, case: &J) -> Result<Option<Violation>, String> {
+        if case.get("miri").is_some() {
+            return crate::core::miri::replay(case);
+        }
         let case = Case::from_json(case)?;
         Ok(exec_case(&case).violation)
+    }
+
+    fn post_batch(&self, seed: u64, tier: Tier) -> Result<(J, Vec<(Violation, J)>), String> {
+        use crate::core::miri;
+        if tier == Tier::Quick {
+            return Ok((json!({"miri": "thorough tier only"}), vec![]));
+        }
+        let base = mix(&[seed, 0x4d31]) % 1_000_000;
+        let mut jobs = vec![miri::Job {
+            mode: "c30-history",
+            workload_seed: base,
+            workload_count: 96,
+            miri_seeds: 4,
+            flags: miri::FLAGS_STRICT,
+        }];
+        for k in 0..8 {
+            jobs.push(miri::Job {
+                mode: "c30-free",
+                workload_seed: base + 1000 + k,
+                workload_count: 1,
+                miri_seeds: 16,
+                flags: miri::FLAGS_STRICT,
+            });
+        }
+        let mut evidence = vec![];
+        let mut violations = vec![];
+        for job in &jobs {
+            let out = miri::run_job(job)?;
+            evidence.push(out.evidence);
+            if let Some(v) = out.violation {
+                violations.push(v);
+                break;
+            }
+        }
+        Ok((json!({"miri": evidence}), violations))
     }
 
     fn minimise(&self, case: &J, class: &str) -> (J, u64) {
